@@ -40,6 +40,13 @@ def run_one(program, faults=(), observe=None, limits=None):
     ctx.outcome = None
     ctx.runaway = None
     CURRENT.append(ctx)
+    import usim._core.loop as _loopmod
+    import usim._core.waitq as _waitq
+    saved_wq = _loopmod.WaitQueue
+    if program.get('_waitq') == 'SD':
+        _loopmod.WaitQueue = _waitq.SDWaitQueue       # the alternative backend of the time-keyed queue (USIM_WAITQUEUE=SD)
+    elif program.get('_waitq') == 'HQ':
+        _loopmod.WaitQueue = _waitq.HQWaitQueue
     try:
         kw = {}
         if program.get('till') is not None:
@@ -53,6 +60,7 @@ def run_one(program, faults=(), observe=None, limits=None):
         ctx.outcome = e
     finally:
         CURRENT.pop()
+        _loopmod.WaitQueue = saved_wq
     ctx.end_time = ctx.trace[-1][1] if ctx.trace else program.get('start', 0)
     if ctx.runaway is None and ctx.outcome is None:
         for loop in ctx.loops:
